@@ -239,6 +239,14 @@ func (c *client) reconnecting() {
 			err := c.reconnect()
 
 			if err == nil {
+				select {
+				case <-c.closeCh:
+					// closed while the attempt was authenticating
+					c.conn.Close(errors.New("close by client"))
+					return
+				default:
+				}
+
 				c.Logger.Info("reconnect success")
 				// every successful recovery starts afresh: the attempt
 				// budget counts consecutive failures, and heartbeats of
@@ -302,6 +310,15 @@ func (c *client) reconnect() error {
 
 	if err := c.dial(ctx, dialer); err != nil {
 		return err
+	}
+
+	// the client was closed while this attempt was dialling: give the new
+	// connection up instead of authenticating on it and reporting a reconnect
+	select {
+	case <-c.closeCh:
+		c.conn.Close(errors.New("close by client"))
+		return errConnClosed
+	default:
 	}
 
 	// server needn't auth
